@@ -26,6 +26,11 @@ func (s pendingTimeout) Timeout(session *session, event internal.Event) (nextSta
 	case internal.PeerTimeout:
 		session.log.OnEvent("Session Timeout")
 		return latentState{}
+	case internal.NeedHeartbeat:
+		// No Heartbeat while the test request is outstanding, but the one-shot timer has to keep
+		// running: it is otherwise re-armed only by the next outbound message, and an idle session
+		// whose test request gets answered would never heartbeat again.
+		session.stateTimer.Reset(session.HeartBtInt)
 	}
 
 	return s
